@@ -30,6 +30,7 @@ type jsonModel struct {
 	capF     int                    // recursion cap field
 	guardFn  *ssa.Function          // family function holding the depth guard
 	getter   *ssa.Function          // optional helper that takes the state from the pool (and may reset it) for the entry
+	passIdx  map[*ssa.Function]map[int]bool // wrapper -> result positions that hand a scanner's consumed count straight through
 	wrap     map[*ssa.Function]bool // non-family methods of the state that call into the family on their own receiver
 }
 
@@ -226,6 +227,38 @@ func getJSON(c *core.Ctx) *jsonModel {
 			}
 		}
 	}
+	// pass-through results of wrappers: on every return the value at that position is the result of a can-fail
+	// scanner call (made in the returning block) or of another such position
+	m.passIdx = map[*ssa.Function]map[int]bool{}
+	for w := range m.wrap {
+		res := w.Signature.Results()
+		for k := 0; k < res.Len(); k++ {
+			if !core.IsInteger(res.At(k).Type()) {
+				continue
+			}
+			all, n := true, 0
+			for _, r := range core.Returns(w) {
+				call, ok := r.Results[k].(*ssa.Call)
+				if !ok {
+					all = false
+					break
+				}
+				h := call.Call.StaticCallee()
+				if h == nil || !m.fam[h] || !canFail(h) {
+					all = false
+					break
+				}
+				n++
+			}
+			if all && n > 0 {
+				if m.passIdx[w] == nil {
+					m.passIdx[w] = map[int]bool{}
+				}
+				m.passIdx[w][k] = true
+			}
+		}
+	}
+	jsonPass = m.passIdx
 	c.Memo["json"] = m
 	return m
 }
@@ -243,6 +276,9 @@ func (m *jsonModel) fieldName(i int) string {
 }
 
 // canFail: the function has a `return 0`.
+// jsonPass is the pass-through table of the current model (see jsonModel.passIdx); resultSources consults it.
+var jsonPass map[*ssa.Function]map[int]bool
+
 func canFail(f *ssa.Function) bool {
 	for _, r := range core.Returns(f) {
 		if len(r.Results) == 1 && core.IsConstInt(r.Results[0], 0) {
